@@ -39,6 +39,30 @@ CHECKS = {
         technique="Coq proof of the decision ingredients (C16-based) + executable history-level spec evaluated in Coq on implementation observations (differential correspondence)",
         design="§4 C04",
     ),
+    "C05": dict(
+        text=("Nine closed Coq theorems over an executable two-stage model (ElementTree queries; everything that can raise or "
+              "construct) of UpnpFactory and the getters through which the object graph is observed, run on XML trees rendered "
+              "from an abstract syntax of well-formed descriptions: for every definition (any device tree, services, state "
+              "variables over the generated 26-type table with default/range/allowed list/either sendEvents notation, actions, "
+              "icons, both URL styles), every rendering that permutes record children, both modes, every oracle answer, device "
+              "creation returns a graph that mirrors the definition one-to-one (partial: same-type sibling devices / services, "
+              "D32 / D33, excluded by guards and proved refuted), strict mode refuses any corrupted service document with a "
+              "library error (full), non-strict mode degrades corrupted services and mirrors the rest. The model is run against "
+              "the real factory on rendered XML text, raw mutated documents and every corruption assignment of a 3-service tree."),
+        technique="Coq proof (record-rendering/permutation lemmas, parse o render = id by nested induction, refinement to a definition-level object function, C08 reused) + generated type tables + differential correspondence",
+        design="§4 C05",
+    ),
+    "C06": dict(
+        text=("Coq proof (7 theorems, closed) that the executable model of UpnpAction.async_call / create_request / "
+              "_format_request_args / validate_arguments - data types, validation and coercion taken from the C08 model over the "
+              "generated table - satisfies the five spec clauses for all strict calls whose names are XML names and whose values "
+              "lie in C08's round-trip domain with XML-legal strings: request line, headers, well-formed envelope with "
+              "in-arguments once and in order, values decode through XML and the in-coercer, refusal with the library's error "
+              "before anything is sent (unconditional). Well-formedness and decoding are by a Gallina XML reader proved on the "
+              "envelope for all inputs and compared with the real expat on every body sent."),
+        technique="Coq proof (executable model + Gallina XML reader, induction over strings and argument lists, C08 roundtrip/accepts_iff reused) + differential correspondence with expat-decoded observations",
+        design="§4 C06",
+    ),
     "C07": dict(
         text=("14 Coq theorems (closed, no axioms) about an executable model of UpnpAction.async_call / parse_response / "
               "_parse_response_args / _parse_fault over XML trees, for every parser oracle: refinement to a category decode table "
